@@ -1147,7 +1147,7 @@ def _coq_chars(s):
 def _v1pre_term(r):
     raw = "[" + "; ".join(_coq_chars(l) for l in r["raw"]) + "]"
     if r["expected"] is None:
-        return f"({raw}, None)"
+        return f"({raw}, @None (list (N * N * option (list ch))))"
     exp = "[" + "; ".join(
         f"({n}, {ind}, {'None' if t is None else '(Some ' + _coq_chars(t) + ')'})" for n, ind, t in r["expected"]) + "]"
     return f"({raw}, Some {exp})"
